@@ -187,6 +187,20 @@ CLAIMED = {
         note="numpy/scipy definitions of std, sem, t-test, percentile and the normal cdf are the reference, not proved",
         technique="contract-based: run-time contracts with independent recomputation on seeded random tables (bounded stand-in)",
         design_ref="8 (C17)"),
+    "C18": dict(
+        category="other",
+        text="Run-time contracts (bounded stand-in) on the real VCF reader over generated biallelic VCF files (1..3 samples, "
+             "+-PEDIGREE, GT/AD/DP subsets, SNVs and indels, SOMATIC and FILTER flags, sample/normal selectors, min depth, "
+             "skip_somatic): one row per record with 0-based start, depth, alt count, alt_freq = count/depth, zygosity from "
+             "the genotype, the SOMATIC flag, for the sample and paired normal chosen by the documented rules; load_het_snps "
+             "keeps exactly the germline-heterozygous records (with zygosity_freq and the all-0/0-normal fallback); "
+             "baf_by_ranges = median of the heterozygous frequencies inside each range mirrored to one side of 0.5, missing "
+             "where there are none, with and without TumorBoost. rescale_baf's formula is discharged deductively (shared "
+             "with C02).",
+        note="pysam's record API is C code outside any contract; multi-allelic records are outside the claim",
+        technique="contract-based: run-time contracts with an independent parser-side oracle on generated VCF files (bounded "
+                  "stand-in); deductive VC generation (pyvc) for rescale_baf",
+        design_ref="8 (C18)"),
     "C19": dict(
         category="other",
         text="Deductive: _width2wing (window half-width always in [1, n-1]) discharged by SMT for all lengths and widths. "
